@@ -1,11 +1,13 @@
 Require Extraction.
 Require Import ExtrOcamlBasic.
-From HV Require Import Asset.Xfer Asset.Schema Asset.Digits Asset.Record Asset.Llsd Asset.Anim Asset.MeshLayout.
-From HVgen Require Import C20_records C20_llsd.
+From HV Require Import Asset.Xfer Asset.Schema Asset.Digits Asset.Record Asset.Llsd Asset.Anim Asset.MeshLayout Asset.InvModel.
+From HVgen Require Import C20_records C20_llsd C20_invmodel.
 Extraction Language OCaml.
 Extraction "c20_model.ml" xfer_packets xfer_step xinit cstep core_init reassemble tview xview
   is_space strip parse_stripped read_block render_block mstr_serialize mstr_deserialize key_ok val_ok mstr_ok
   to_lines from_lines dom wf_schema live_schemas int_to_text int_of_text hex8_to_text hex_of_text uuid_to_text uuid_of_text
   to_llsd from_llsd dom_llsd live_llsd_schemas
   parse_anim write_anim wf_anim utf8_valid
-  write_layout parse_segments known_segments rank sort_keys.
+  write_layout parse_segments known_segments rank sort_keys
+  live_table to_writer from_reader model_to_llsd model_from_llsd model_eqb add_all empty_store node_key svalues consistent
+  node_ok_text node_ok_llsd ids_distinct.
